@@ -37,8 +37,9 @@ class TLCResult:
         m = re.search(r'Error: Action property (\S+) is violated', out)
         if m:
             self.violated = m.group(1)
-        if 'Temporal properties were violated' in out:
-            self.violated = self.violated or 'temporal'
+        m = re.search(r'Temporal propert(?:y (\S+) was|ies were) violated', out)
+        if m:
+            self.violated = self.violated or (m.group(1) or 'temporal')
         if re.search(r'Error: Deadlock reached', out):
             self.violated = self.violated or 'deadlock'
         m = re.search(r'Error: Assumption line (\d+).* is false', out)
